@@ -195,7 +195,7 @@ Proof.
 Qed.
 
 (** * the descriptor walker *)
-Theorem ydec_np env : forall fuel t s st, ynp (ydec env fuel t s st).
+Theorem ydec_np env hk : forall fuel t s st, ynp (ydec env hk fuel t s st).
 Proof.
   induction fuel as [ | f IH]; intros t s st; cbn [ydec]; [exact I|]. lazy zeta.
   apply ynp_if; [exact I|].
@@ -203,7 +203,7 @@ Proof.
   { intros. apply ynp_bind; [apply ynp_lift; apply np_ytake_bits | intros; exact I]. }
   assert (Hinto : forall (cr : xtree * ys) chk t' stx,
             ynp (match sub_slice (fst cr) chk with
-                 | Some s2 => doy (_, st) <- ydec env f t' s2 stx; yret (snd cr) st
+                 | Some s2 => doy (_, st) <- ydec env hk f t' s2 stx; yret (snd cr) st
                  | None => yret (snd cr) stx
                  end)).
   { intros. destruct (sub_slice (fst cr) chk); [|exact I].
@@ -248,7 +248,9 @@ Proof.
   - apply ynp_bind; [apply bt_tree_np|]. intros leaves st2.
     apply ynp_bind; [apply bt_leaves_np; intros; apply IH|]. intros last st3.
     destruct (yb s) as [ | [ | ] b']; exact I.
+  - apply ynp_if; [apply IH | exact I].
+  - apply ynp_bind; [apply ynp_lift; apply np_ytake_ref|]. intros cr st3. apply Hinto.
 Qed.
 
-Theorem yunmarshal_np env fuel t c : ynp (yunmarshal env fuel t c).
+Theorem yunmarshal_np env hk fuel t c : ynp (yunmarshal env hk fuel t c).
 Proof. apply ydec_np. Qed.
